@@ -18,12 +18,17 @@ def bmc(tier):
         ]
     return jobs
 
+import importlib.util, os
+_spec = importlib.util.spec_from_file_location("c14parts", os.path.join(os.path.dirname(os.path.abspath(__file__)), "C14_parts.py"))
+_parts = importlib.util.module_from_spec(_spec); _spec.loader.exec_module(_parts)
+
 PROP = {
     "level_text": "Bounded model checking of the real partitionLocker.lock/unlock with SYMBOLIC SCHEDULES: the SSA of the thread programs is turned into control-flow automata over the visible operations (Lock/Unlock, Cond.Wait/Broadcast, shared-map accesses, critical-section markers); B global steps are unrolled with a symbolic thread id per step and symbolic keys, and one solver query per property covers every interleaving. A 'bound' query (must be unsat) shows that every schedule terminates within B, so the verdicts are complete for the stated thread/round counts.",
-    "level_note": "Covers part K of C14 (per-key mutual exclusion, deadlock freedom, no unlock-of-unlocked/Wait-without-lock/unprotected map access) for T <= 3 threads (thorough: 4 threads, and 2 lock rounds per thread), 2 keys. sync.Mutex/sync.Cond follow the Go contract (a woken waiter has no priority; Broadcast wakes all). The atomic-block jobs rely on lock discipline, which is checked on the automaton; the fine-grained job does not. The worker pool, cache step and single-flight wiring (parts S, C, W of DESIGN.md) are separate jobs if present; goroutine/channel plumbing, ratelimit and real timing are outside the claim.",
+    "level_note": "Covers part K of C14 (per-key mutual exclusion, deadlock freedom, no unlock-of-unlocked/Wait-without-lock/unprotected map access) for T <= 3 threads (thorough: 4 threads, and 2 lock rounds per thread), 2 keys. sync.Mutex/sync.Cond follow the Go contract (a woken waiter has no priority; Broadcast wakes all). The atomic-block jobs rely on lock discipline, which is checked on the automaton; the fine-grained job does not. Parts (C) and (W) — the cache step of processJob/queryCache and the worker bound of StartWorkers/queryWorker — are sequential symbolic-execution jobs of the same check (props/C14_parts.py): " + _parts.PROP["level_text"] + " The single-flight wiring (S: lock < enqueue < receive < unlock inside Query/Config/...) is exercised for RangeQuery by C13's rq-* jobs only; ratelimit and real timing are outside the claim.",
     "technique": "bounded model checking with symbolic schedules: go/ssa -> control-flow automata of visible operations -> SMT (z3, bit-vectors), B-step unrolling with a symbolic thread id per step; counterexample schedules replayed against the real code with real goroutines through a gated sync.Locker",
-    "runs": [{"pkg": "./internal/promapi", "harness": ["harness/C14/keylock.go"], "native_tests": ["harness/C14/keylock_native_test.go"], "intmode": True, "bmc": bmc}],
-    "bounds": {"threads": "2-3 (thorough 4)", "lock rounds per thread": "1 (thorough 2)", "keys": 2, "steps": "24 fine-grained / 12-24 fused (thorough up to 48); the bound query shows these suffice for every schedule"},
-    "assumptions": ["sync.Mutex and sync.Cond behave as documented", "fused jobs: lock discipline (checked statically on the automaton)"],
+    "runs": [{"pkg": "./internal/promapi", "harness": ["harness/C14/keylock.go"], "native_tests": ["harness/C14/keylock_native_test.go"], "intmode": True, "bmc": bmc}]
+            + _parts.PROP["runs"],  # parts (C) cache step and (W) worker bound, see props/C14_parts.py
+    "bounds": {"parts C/W": _parts.PROP["bounds"], "threads": "2-3 (thorough 4)", "lock rounds per thread": "1 (thorough 2)", "keys": 2, "steps": "24 fine-grained / 12-24 fused (thorough up to 48); the bound query shows these suffice for every schedule"},
+    "assumptions": ["sync.Mutex and sync.Cond behave as documented", "fused jobs: lock discipline (checked statically on the automaton)"] + _parts.PROP["assumptions"],
     "outside": ["worker pool, channels, ratelimit, real timing", "data races other than accesses to the lock's own map"],
 }
